@@ -66,7 +66,7 @@ theorem C07_sharing_unobservable {c : Cfg} (rc : RunCfg) (inst : Instance) (st :
 
 /-- **Equal snapshots only for equal nodes**: for all expressions and atoms (any depth, any names the lexer admits,
     any string/integer/boolean constants, float constants other than NaN), given only that shortest float formatting
-    is injective. The selector quirk (receiver printed twice), the unterminated argument lists and names next to
+    is injective. Selectors after their receiver, the unterminated argument lists and names next to
     punctuation are all covered: the printers write a prefix code. -/
 theorem C07_snapshots_determine_nodes (hf : FloatPF) : SnapInj := snapInj_of hf
 
